@@ -2668,9 +2668,9 @@ func stripStringConv(v ssa.Value) ssa.Value {
 func init() {
 	txt := "a length prefix is the length of what follows it: where a PutUintN stores len(X) and the next copy into the same buffer stores Y, X and Y are the same value (the object-path length of an external link written from the file name's length makes the path decode short, or not at all)"
 	registry["C03"].Meta.Rules["C03.19"] = txt
-	registry["C03"].Rules = append(registry["C03"].Rules, func(c *Ctx, r *Result) { lengthPrefixRule(c, r, "C03.19", nil, 2) })
+	registry["C03"].Rules = append(registry["C03"].Rules, func(c *Ctx, r *Result) { lengthPrefixRule(c, r, "C03.19", nil, 1) })
 	registry["C11"].Meta.Rules["C11.13"] = txt + " (shared with C03.19)"
-	registry["C11"].Rules = append(registry["C11"].Rules, func(c *Ctx, r *Result) { lengthPrefixRule(c, r, "C11.13", nil, 2) })
+	registry["C11"].Rules = append(registry["C11"].Rules, func(c *Ctx, r *Result) { lengthPrefixRule(c, r, "C11.13", nil, 1) })
 }
 
 // fieldLoadBase: the object whose field v loads (nil when v is not a field load).
